@@ -284,11 +284,21 @@ def run(ctx):
     for has_items, (inp, outp) in itertools.product((False, True), (("/in/dir/form.xlsx", "/out/dir/form.xml"), ("/same/form.xlsx", "/same/form.xml"), ("form.xlsx", "sub/out.xml"))):
         written = {}
 
+        def h_osopen(i_, a_, k_, n_):
+            import os as _os
+            flags_ = a_[1] if len(a_) > 1 else k_.get("flags", 0)
+            # a descriptor opened without O_TRUNC keeps the old content beyond what is written now
+            return Obj(None, {"path": a_[0], "truncates": bool(isinstance(flags_, int) and flags_ & _os.O_TRUNC)}, name="fd")
+
         def h_open(i_, a_, k_, n_, written=written):
             path_, mode_ = a_[0], k_.get("mode", a_[1] if len(a_) > 1 else "r")
+            if isinstance(path_, Obj) and path_.name == "fd":
+                # open(fd, "w") does not truncate: only the flags the descriptor was opened with do
+                mode_ = ("w" if path_.attrs["truncates"] else "r+ (no truncation: a shorter document leaves the tail of the previous file)")
+                path_ = path_.attrs["path"]
             return Obj(None, {"write": lambda i2, a2, k2, n2, path_=path_, mode_=mode_: written.setdefault((str(path_), mode_), []).append(a2[0])}, name="file")
         res_ = Obj(None, {"xform": "XFORM-TEXT", "itemsets": ("CSV-TEXT" if has_items else None), "warnings": ["w1"]}, name="result")
-        itx = ctx.interp("C18.R4", hooks={"fnname:convert": lambda i_, a_, k_, n_, res_=res_: (k_["warnings"].append("w1") if isinstance(k_.get("warnings"), list) else None, res_)[1], "ext:pathlib.Path": lambda i_, a_, k_, n_: _pl.PurePosixPath(a_[0]),
+        itx = ctx.interp("C18.R4", hooks={"fnname:convert": lambda i_, a_, k_, n_, res_=res_: (k_["warnings"].append("w1") if isinstance(k_.get("warnings"), list) else None, res_)[1], "ext:pathlib.Path": lambda i_, a_, k_, n_: _pl.PurePosixPath(a_[0]), "ext:os.open": h_osopen,
                                           # a validator called from this wrapper is outside its contract (the rule above reports it); stand-in: no findings
                                           "fnname:check_xform": lambda i_, a_, k_, n_: []})
         itx._modcache = dict(itx._modcache)
@@ -304,7 +314,7 @@ def run(ctx):
         if has_items:
             want_files[str(_pl.PurePosixPath(outp).parent / "itemsets.csv")] = ["CSV-TEXT"]
         got_files = {str(_pl.PurePosixPath(p_)): v_ for (p_, m_), v_ in written.items()}
-        modes_ok = all("w" in m_ for (_p, m_) in written)
+        modes_ok = all(m_.startswith("w") for (_p, m_) in written)
         r4.check(got_files == want_files and modes_ok and out_ == ["w1"], f"xls2xform_convert[{desc}]",
                  "writes the XForm to the output path and, iff there are itemsets, itemsets.csv beside it; returns the conversion warnings", xc.loc(),
                  why_fail=f"files written: {got_files!r} (modes {[m_ for _p, m_ in written]}), returned {out_!r}")
